@@ -534,7 +534,21 @@ func ruleC11_6(c *Ctx, r *Rep) {
 	if ap == nil {
 		return
 	}
-	// the over-budget test
+	// the over-budget test (in applyResults or a private helper that belongs to it)
+	budgetTest := func(f *ssa.Function) *ssa.If {
+		for _, b := range f.Blocks {
+			if len(b.Instrs) == 0 {
+				continue
+			}
+			if x, ok := b.Instrs[len(b.Instrs)-1].(*ssa.If); ok {
+				if bo, ok := x.Cond.(*ssa.BinOp); ok && bo.Op == token.GTR && sources(bo.Y)["field:MaxBytes"] && sources(bo.X)["field:Payload"] {
+					return x
+				}
+			}
+		}
+		return nil
+	}
+	ap = c.opFuncWhere(ap, func(f *ssa.Function) bool { return budgetTest(f) != nil })
 	var iff *ssa.If
 	for _, b := range ap.Blocks {
 		if len(b.Instrs) == 0 {
